@@ -376,10 +376,19 @@ class Engine:
                 _, u, name = root.split(':', 2)
                 unit = self.db.units.get(u[:-2] + '.' + u[-1]) if len(u) > 2 and u[-2] == '_' else None
                 g = unit.globals.get(name) if unit is not None else None
+            elif '::SL:' in root:
+                # a static table kept inside the function that uses it
+                fid, lid = root.split('::', 1)
+                owner_fn = next((f_ for f_ in self.prog.functions() if self.frame_id(f_) == fid), None)
+                li = next((l_ for l_ in (owner_fn.f.get('locals') or []) if l_.get('id') == lid), None) if owner_fn is not None else None
+                if li is not None and li.get('init') is not None:
+                    g = {'t': li.get('t', ''), 'init': li['init'], 'static': True, 'name': lid, 'loc': (fid, lid)}
+                    unit = self.db.units.get(owner_fn.unit)
+                    sl_fn = owner_fn
             elif root.startswith('G:'):
-                for unit in self.db.units.values():
+                for unit in list(self.prog.units) + list(self.db.units.values()):
                     cand = unit.globals.get(root[2:])
-                    if cand is not None and not cand.get('static'):
+                    if cand is not None and not cand.get('static') and cand.get('init') is not None:
                         g = cand
                         break
             if g is not None and isinstance(g.get('init'), dict) and g['init'].get('k') == 'str' and '[' in g.get('t', '') and 'char' in g.get('t', ''):
@@ -388,13 +397,23 @@ class Engine:
                 g = dict(g, init={'k': 'list', 'v': [{'k': 'int', 'v': (b - 256 if b >= 128 and 'unsigned' not in g.get('t', '') else b)} for b in bs]})
             ok = g is not None and '[' in g.get('t', '') and isinstance(g.get('init'), dict) and g['init'].get('k') == 'list'
             if ok and not g.get('t', '').startswith('const '):
-                # not declared const: still a lookup table if it is private to its file and nothing there writes it or takes an address into it
-                ok = bool(g.get('static')) and root.startswith('S:') and self._never_written(unit, name)
+                # not declared const: still a lookup table if it is private to its file and nothing there writes it or takes an address into it,
+                # or if it is a global that no unit of the explored program writes or takes an address into
+                if '::SL:' in root:
+                    class _One:
+                        functions = {sl_fn.name: sl_fn}
+                    ok = self._never_written([_One], root.split('::', 1)[1])
+                elif root.startswith('S:'):
+                    ok = bool(g.get('static')) and self._never_written([unit], 'S:' + name)
+                else:
+                    ok = self._never_written(self.prog.units, root)
             owner = None
             if ok:
                 for u_ in self.db.units.values():
                     if any(g is g_ or (g_.get('name') == g.get('name') and g_.get('loc') == g.get('loc')) for g_ in u_.globals.values()):
                         owner = u_
+            if ok and owner is None and '::SL:' in root:
+                owner = unit
             cache[root] = (g['init'], g.get('fields') or [], owner) if ok else None
         if cache[root] is None:
             return TOP
@@ -442,9 +461,8 @@ class Engine:
                 return TOP
         return frozenset(out)
 
-    def _never_written(self, unit, name):
-        d = 'S:' + name
-        for f in unit.functions.values():
+    def _never_written(self, units, d):
+        for f in (f_ for u_ in units for f_ in u_.functions.values()):
             for x in f.all_x():
                 tgt = None
                 if x.k == 'asg' and x.args:
@@ -1135,6 +1153,23 @@ class Engine:
                         if a is not None and a >= 0:
                             r.add(a)
                     r.add(n['i'])
+            # an operand evaluated in one block and consumed in another (a ?: or && inside an index or an argument splits the
+            # expression over several blocks): table[state][c == 'x' ? 0 : 1] needs the value of state loaded before the split
+            pos = fn.pos
+            for n in fn.nodes.values():
+                pn = pos.get(n['i'])
+                if pn is None:
+                    continue
+                todo = [a for a in n.get('a', []) if a is not None and a >= 0]
+                while todo:
+                    a = todo.pop()
+                    pa = pos.get(a)
+                    if pa is None:
+                        sub = fn.nodes.get(a)
+                        if sub is not None:
+                            todo.extend(b for b in sub.get('a', []) if b is not None and b >= 0)
+                    elif pa[0] != pn[0]:
+                        r.add(a)
             fn._xneed = r
         return r
 
